@@ -16,6 +16,18 @@ from harness.common import frac, err_kind, deep_compare
 DISABLED = True
 PID = "C35"
 THEOREMS = [
+    "PorepyVerif.C35.expand_index_pointers_eq_ranges",
+    "PorepyVerif.C35.expand_index_pointers_broadcast",
+    "PorepyVerif.C35.rldecode_eq_repeat",
+    "PorepyVerif.C35.rlencode_eq_runs",
+    "PorepyVerif.C35.rleSpec_characterisation",
+    "PorepyVerif.C35.rldecode_rlencode",
+    "PorepyVerif.C35.stack_mat_eq_vstack",
+    "PorepyVerif.C35.stack_diag_eq_block_diag",
+    "PorepyVerif.C35.slice_eq_dense_index",
+    "PorepyVerif.C35.whereTrue_spec",
+    "PorepyVerif.C35.slice_indices_eq",
+    "PorepyVerif.C35.zero_rows_eq_dense",
 ]
 LEAN_MODULES = ["PorepyVerif.C35.Props"]
 AUDIT = "PorepyVerif/C35/Audit.lean"
